@@ -72,7 +72,7 @@ pub const TOKEN_ATTRS: [&str; 40] = [
 
 pub const ODD_IDENTS: [&str; 14] = ["__", "_1", "_", "é", "über_cmd", "r#fn", "r#type", "a_", "_a_", "x__y", "Ünï", "漢字", "__proto__", "a1_2b"];
 
-pub const TYPE_VARIANTS: [&str; 32] = [
+pub const TYPE_VARIANTS: [&str; 40] = [
     "[u8; 4]",
     "[String]",
     "&[u8]",
@@ -105,6 +105,15 @@ pub const TYPE_VARIANTS: [&str; 32] = [
     "Vec<ü::Ü>",
     "(a::B, ü::C)",
     "😀",
+    // identifier characters that continue a name without being letters or digits, inside a path
+    "col·lecció::Llibre",
+    "x\u{301}::Model",
+    "a‿b::Model",
+    "m::x\u{301}y::Col·lecció",
+    "Vec<col·lecció::Llibre>",
+    "HashMap<a‿b::K, (x\u{301}::V, i32)>",
+    "पुस्तक::किताब",
+    "Option<𠮷田::Profile·2>",
 ];
 
 #[derive(Debug, Clone, Serialize, Deserialize)]
@@ -693,7 +702,7 @@ pub fn run(tier: Tier) -> CheckResult {
         {"TypeVariant": {"ty": "for<'a> fn(&'a str) -> &'a str", "site": "event", "depth": 5}},
         {"corpus": "/repo/src/analysis/mod.rs"}
     ]));
-    res.coverage.set("rule", format!("(i) every string of <= {} letters over a 21-letter alphabet (ASCII, space, 2/3/4-byte characters, escaped quote, escaped backslash, parentheses, comma, '=', and the words the scanners look for) injected at 9 attribute-string positions; 40 raw attribute token forms (empty, missing values, non-literal values, duplicates, raw strings, cfg_attr) on fields, structs, variants, parameters and fns; (ii) 14 odd identifiers in 8 roles; (iii) 32 exotic syn::Type forms at the five sites wrapped to depth 0..5 in process, four non-ASCII project type names at every constructor position (map key / value, each tuple element, set element, Result arms, nested once more) of the five sites, every arity 0..4 of emit / emit_to / emit_filter x 3 forms of the name argument x 5 receiver forms, nesting depth up to {} in a subprocess; an item-shape zoo (tuple/unit/generic structs, data-carrying and tagged enums, unions, trait and impl methods, pattern parameters, qualifiers, emit calls of every arity and payload expression); (iv) every .rs file under /repo{} as single-file projects through the real binary (batched, bisected on exit status outside {{0,1}}), every line-boundary truncation of tests/fixtures next to a valid file; unparsable files whose offending line holds 0..120 characters of 2 / 3 / 4 bytes before the error and 0 / 40 / 100 after it; reference cycles of 1..6 serde types with and without the dependency visualisation through the real binary; oracle: no panic (in process: catch_unwind, re-confirmed through the binary), exit status in {{0,1}}, and an unparsable file leaves the output of the valid file unchanged.", 3, if tier == Tier::Quick { 256 } else { 2000 }, if tier == Tier::Thorough { " and every .rs file in ~/.cargo/registry/src" } else { "" }));
+    res.coverage.set("rule", format!("(i) every string of <= {} letters over a 21-letter alphabet (ASCII, space, 2/3/4-byte characters, escaped quote, escaped backslash, parentheses, comma, '=', and the words the scanners look for) injected at 9 attribute-string positions; 40 raw attribute token forms (empty, missing values, non-literal values, duplicates, raw strings, cfg_attr) on fields, structs, variants, parameters and fns; (ii) 14 odd identifiers in 8 roles; (iii) 40 exotic syn::Type forms (incl. path segments with identifier characters that are neither letters nor digits) at the five sites wrapped to depth 0..5 in process, four non-ASCII project type names at every constructor position (map key / value, each tuple element, set element, Result arms, nested once more) of the five sites, every arity 0..4 of emit / emit_to / emit_filter x 3 forms of the name argument x 5 receiver forms, nesting depth up to {} in a subprocess; an item-shape zoo (tuple/unit/generic structs, data-carrying and tagged enums, unions, trait and impl methods, pattern parameters, qualifiers, emit calls of every arity and payload expression); (iv) every .rs file under /repo{} as single-file projects through the real binary (batched, bisected on exit status outside {{0,1}}), every line-boundary truncation of tests/fixtures next to a valid file; unparsable files whose offending line holds 0..120 characters of 2 / 3 / 4 bytes before the error and 0 / 40 / 100 after it; reference cycles of 1..6 serde types with and without the dependency visualisation through the real binary; oracle: no panic (in process: catch_unwind, re-confirmed through the binary), exit status in {{0,1}}, and an unparsable file leaves the output of the valid file unchanged.", 3, if tier == Tier::Quick { 256 } else { 2000 }, if tier == Tier::Thorough { " and every .rs file in ~/.cargo/registry/src" } else { "" }));
     res.assumptions = vec!["totality is claimed only over these finite sets".into()];
     res
 }
